@@ -291,6 +291,9 @@ func (s *Server) makeResponseNullIP(req *dns.Msg) (resp *dns.Msg) {
 	return resp
 }
 
+// genBlockedHost returns the response with the addresses of newAddr, which is
+// either an IP address or a hostname to resolve.  s.serverLock is expected to
+// be locked for reading.
 func (s *Server) genBlockedHost(request *dns.Msg, newAddr string, d *proxy.DNSContext) *dns.Msg {
 	if newAddr == "" {
 		log.Info("dnsforward: block host is not specified")
@@ -314,7 +317,12 @@ func (s *Server) genBlockedHost(request *dns.Msg, newAddr string, d *proxy.DNSCo
 		Req:   &replReq,
 	}
 
-	prx := s.proxy()
+	// Don't use s.proxy here, since it locks s.serverLock for reading, which
+	// is already locked for reading by the request filtering, the only stage
+	// that produces the safe browsing and parental control results.  Locking
+	// it for the second time deadlocks with a writer that has started waiting
+	// in between.
+	prx := s.dnsProxy
 	if prx == nil {
 		log.Debug("dnsforward: %s", srvClosedErr)
 
